@@ -230,6 +230,12 @@ func (c *contentValidator) ValidatePermissionChange(ch *aclrecordproto.AclAccoun
 		return ErrNoSuchAccount
 	}
 
+	if currentState.Permissions.NoPermissions() {
+		// a joining, declined or removed account holds no read key: it can only be (re)admitted by a change
+		// that carries the key for it (AccountsAdd, RequestAccept, InviteJoin)
+		return ErrInsufficientPermissions
+	}
+
 	if currentState.Permissions == AclPermissionsGuest {
 		// it shouldn't be possible to change permission of guest user
 		// it should be only possible to remove it with AccountRemove acl change
